@@ -38,9 +38,6 @@ package replication
 //@ func (*worker).tableState
 //@   assumed
 //@   modifies nothing
-//@ func (*worker).do
-//@   assumed
-//@   modifies family(CH_len), allfields(replicationThrottle)
 //@ func (*worker).recover
 //@   assumed
 //@   modifies family(CH_len)
@@ -59,9 +56,12 @@ package replication
 
 //@ func (*worker).Start$3
 //@   maypanic
-//@   requires *w != nil && (*w).workerFactory != nil && (*w).engine != nil && (*w).engine.Manager != nil && (*w).engine.Manager.store != nil && (*w).log != nil && (*w).recoverySemaphore != nil
-//@   modifies allfields(worker), allfields(replicationThrottle), family(CH_len), world.clock, (*w).engine.Manager.store.rHas, (*w).engine.Manager.store.rPair, (*w).engine.Manager.store.nwk, (*w).engine.Manager.store.wVal, (*w).engine.Manager.store.wVer, (*w).engine.Manager.store.wDel, (*w).engine.Manager.store.wPrevHas, (*w).engine.Manager.store.wPrev
+//@   requires *w != nil && (*w).workerFactory != nil && (*w).engine != nil && (*w).engine.Manager != nil && (*w).engine.Manager.store != nil && (*w).log != nil && (*w).recoverySemaphore != nil && (*w).engine.NodeHost != nil && (*w).logClient != nil && (*w).metrics.replicationFollowerIndex != nil && (*w).metrics.replicationLeaderIndex != nil
+//@   modifies (*w).engine.NodeHost.lastRes, (*w).engine.NodeHost.lastErr, (*w).engine.NodeHost.lastCmd, (*w).engine.NodeHost.nelem, (*w).engine.NodeHost.nseq, allfields(worker), allfields(replicationThrottle), family(CH_len), world.clock, (*w).engine.Manager.store.rHas, (*w).engine.Manager.store.rPair, (*w).engine.Manager.store.nwk, (*w).engine.Manager.store.wVal, (*w).engine.Manager.store.wVer, (*w).engine.Manager.store.wDel, (*w).engine.Manager.store.wPrevHas, (*w).engine.Manager.store.wPrev
 //@   before replication.(*worker).do assert [C15.gate] (*w).leased.v != 0
+// the session used for proposing is derived, on every poll, from the shard the table currently points at
+//@   before replication.(*worker).do assert [C05.session] session == noopS(id) && leaderIndex == idx
+//@   loop 0 invariant (*w).metrics == old((*w).metrics) && (*w).engine.NodeHost == old((*w).engine.NodeHost) && (*w).logClient == old((*w).logClient) && (*w).workerFactory == old((*w).workerFactory)
 //@   loop 0 invariant t != nil && (*w).workerFactory == old((*w).workerFactory) && (*w).engine == old((*w).engine) && (*w).engine.Manager == old((*w).engine.Manager) && (*w).engine.Manager.store == old((*w).engine.Manager.store) && (*w).log == old((*w).log) && (*w).recoverySemaphore == old((*w).recoverySemaphore)
 
 // ---------------------------------------------------------------- applying the leader's commands (C05)
@@ -104,3 +104,34 @@ package replication
 //@   loop 0 invariant [C05.batch.count] w.engine.NodeHost.nseq - old(w.engine.NodeHost.nseq) + len(seq.Sequence) == rangeindex + 1
 //@   loop 0 invariant (rangeindex == -1 || rangeindex == len(commands) - 1) ==> len(seq.Sequence) == 0
 //@   loop 0 invariant rangeindex >= 0 && len(seq.Sequence) == 0 ==> lastApplied == commands[rangeindex].LeaderIndex && hasLI(w.engine.NodeHost.lastCmd) && liVal(w.engine.NodeHost.lastCmd) == lastApplied
+
+// do: the log is requested from the index right after the last leader index the follower has
+// recorded for the table, and the commands of every answer are handed to proposeBatch with the
+// session that was passed in
+//@ iface regattapb.LogClient.Replicate
+//@   assumed
+//@   results stream, err
+//@   ensures err == nil ==> stream != nil
+//@   modifies nothing
+//@ iface regattapb.Log_ReplicateClient.Recv
+//@   assumed
+//@   results m, err
+//@   ensures err == nil ==> m != nil
+//@   modifies nothing
+//@ func regattapb.(*ReplicateCommandsResponse).GetCommands
+//@   assumed
+//@   ensures forall j int :: 0 <= j && j < len(result) ==> result[j] != nil
+//@   modifies nothing
+//@ func regattapb.(ReplicateError).String
+//@   assumed
+//@   modifies nothing
+//@ func (*worker).do$1
+//@   assumed
+//@   modifies nothing
+//@ func (*worker).do
+//@   maypanic
+//@   requires w != nil && w.workerFactory != nil && w.engine != nil && w.engine.NodeHost != nil && w.logClient != nil && w.metrics.replicationFollowerIndex != nil && w.metrics.replicationLeaderIndex != nil
+//@   before regattapb.LogClient.Replicate assert [C05.resume] in != nil && in.LeaderIndex == leaderIndex + 1 && bytesOf(in.Table) == bytesOf(w.table)
+//@   before (*worker).proposeBatch assert [C05.do.session] session == session0
+//@   modifies w.engine.NodeHost.lastRes, w.engine.NodeHost.lastErr, w.engine.NodeHost.lastCmd, w.engine.NodeHost.nelem, w.engine.NodeHost.nseq
+//@   loop 0 invariant stream != nil && w.workerFactory == old(w.workerFactory) && w.engine == old(w.engine) && w.engine.NodeHost == old(w.engine.NodeHost)
